@@ -9,6 +9,7 @@ use astria_core::{
         asset::{
             Denom,
             IbcPrefixed,
+            TracePrefixed,
         },
         Address,
         Bech32,
@@ -55,6 +56,7 @@ use super::{
 };
 use crate::{
     accounts::StateWriteExt as _,
+    assets::StateReadExt as _,
     address::StateReadExt as _,
     app::StateReadExt as _,
     bridge::{
@@ -229,12 +231,23 @@ impl CheckedIcs20Withdrawal {
             .await
             .wrap_err("failed to decrease sender or bridge balance")?;
 
+        // Whether we're the source is a property of the asset's trace, not of how the denom was
+        // spelled in the action: resolve an `ibc/...` denom to its trace-prefixed form first.
+        let trace_prefixed_denom = match &self.action.denom {
+            Denom::TracePrefixed(trace_prefixed) => trace_prefixed.clone(),
+            Denom::IbcPrefixed(ibc_prefixed) => state
+                .map_ibc_to_trace_prefixed_asset(ibc_prefixed)
+                .await
+                .wrap_err("failed to read trace prefixed form of ibc prefixed denom from storage")?
+                .ok_or_eyre("ibc prefixed denom has no known trace prefixed form")?,
+        };
+
         // If we're the source, move tokens to the escrow account, otherwise the tokens are just
         // burned.
         if is_source(
             checked_packet.source_port(),
             checked_packet.source_channel(),
-            &self.action.denom,
+            &trace_prefixed_denom,
         ) {
             let channel_balance = state
                 .get_ibc_channel_balance(self.ibc_packet.source_channel(), &self.action.denom)
@@ -337,12 +350,8 @@ async fn create_ibc_packet_from_withdrawal<S: StateRead>(
     ))
 }
 
-fn is_source(source_port: &PortId, source_channel: &ChannelId, asset: &Denom) -> bool {
-    if let Denom::TracePrefixed(trace) = asset {
-        !trace.has_leading_port(source_port) || !trace.has_leading_channel(source_channel)
-    } else {
-        false
-    }
+fn is_source(source_port: &PortId, source_channel: &ChannelId, asset: &TracePrefixed) -> bool {
+    !asset.has_leading_port(source_port) || !asset.has_leading_channel(source_channel)
 }
 
 #[cfg(test)]
